@@ -156,6 +156,11 @@ Theorem C13_member_getters_copied_isolated : forall w K, Isolated w K ->
 Proof. exact member_getters_copied_isolated. Qed.
 Print Assumptions C13_member_getters_copied_isolated.
 
+Theorem C13_filtered_getters_copied_isolated : forall w K test c h' l,
+  Isolated w K -> channel_filtered_copied_g test w c = Ok (h', l) -> Isolated (mkWorld h' (w_st w)) (l ++ K).
+Proof. exact filtered_getters_copied_isolated. Qed.
+Print Assumptions C13_filtered_getters_copied_isolated.
+
 (* ---- the strong heap invariant HeapWf (Spec/HeapSpec.v): every tracked object is well
    typed and in bounds and tracked objects share no memory among themselves (a PART in
    one channel can never shift another channel's array). It holds initially, is kept by
